@@ -841,3 +841,91 @@ def overflow_audit(ctx, rule, fns, exceptions=None):
                             "length: a hostile length makes it overflow (a panic in debug builds, a wrapped value that passes the following check in "
                             "release)" % (B.named(fn, s["ta"]), {"Add": "+", "Sub": "-", "Mul": "*"}[s["op"]], B.named(fn, s["tb"])), pt=s["pt"])
     return n
+
+
+# ------------------------------------------------------------------------------------------------
+# a predicate that is a conjunction of comparisons between fields of its parameters
+
+def conjunction_of_comparisons(f):
+    """If f(params..) -> bool is `c1 && c2 && .. && cn` with every ci a comparison of two parameter fields, return
+    [(op, (param, field path), (param, field path))] with op in Lt/Le/Gt/Ge/Eq/Ne; otherwise (None, reason)."""
+    def side(o):
+        if o.get("k") not in ("copy", "move"):
+            return None
+        ps = [s for s in P.origins(f, o) if s["k"] == "param"]
+        if len(ps) != 1 or not ps[0]["proj"]:
+            return None
+        return (ps[0]["i"], tuple(ps[0]["proj"]))
+
+    def atom_of_operand(o):
+        # the comparison that produced boolean operand o
+        if o.get("k") not in ("copy", "move") or o["pl"]["p"]:
+            return None
+        ds = [(pt, kind, p) for (pt, kind, p) in P.defs(f).of(o["pl"]["l"]) if kind in ("assign", "call")]
+        if len(ds) != 1:
+            return None
+        pt, kind, p = ds[0]
+        if kind == "assign" and p["rv"]["r"] == "bin" and p["rv"]["op"] in ("Lt", "Le", "Gt", "Ge", "Eq", "Ne"):
+            a, b = side(p["rv"]["a"]), side(p["rv"]["b"])
+            return (p["rv"]["op"], a, b) if a and b else None
+        if kind == "call":
+            m = re.search(r"::(lt|le|gt|ge|eq|ne)$", callee_skey(p) or "")
+            if m and len(p["args"]) == 2:
+                a, b = side(p["args"][0]), side(p["args"][1])
+                return (m.group(1).capitalize(), a, b) if a and b else None
+        return None
+
+    def returns_const(bi, want, seen=()):
+        b = f.blocks[bi]
+        if bi in seen or len(seen) > 6:
+            return False
+        vals = [st for st in b.st if st["s"] == "=" and st["lhs"]["l"] == 0 and not st["lhs"]["p"]]
+        if vals:
+            rv = vals[-1]["rv"]
+            return rv["r"] == "use" and rv["a"].get("k") == "const" and bool(rv["a"]["c"].get("v")) == want and b.term["t"] in ("goto", "return")
+        if b.term["t"] == "goto" and not [st for st in b.st if st["s"] == "="]:
+            return returns_const(b.term["to"], want, seen + (bi,))
+        return False
+
+    atoms = []
+    bi = 0
+    for _ in range(32):
+        b = f.blocks[bi]
+        t = b.term
+        if t["t"] == "call" and t["dest"]["l"] == 0 and not t["dest"]["p"]:
+            m = re.search(r"::(lt|le|gt|ge|eq|ne)$", callee_skey(t) or "")
+            a, c = (side(t["args"][0]), side(t["args"][1])) if m and len(t["args"]) == 2 else (None, None)
+            if not (m and a and c):
+                return None, "the last conjunct is not a comparison of two parameter fields"
+            atoms.append((m.group(1).capitalize(), a, c))
+            return atoms, None
+        if t["t"] == "call":
+            bi = t["to"]
+            continue
+        if t["t"] == "switch":
+            at = atom_of_operand(t["discr"])
+            if at is None:
+                return None, "a branch is not on a comparison of two parameter fields"
+            succ = dict(b.succs)
+            if "sw:0" not in succ or "sw:1" not in succ or not returns_const(succ["sw:0"], False):
+                return None, "the false edge of a conjunct does not return false"
+            atoms.append(at)
+            bi = succ["sw:1"]
+            continue
+        if t["t"] == "goto":
+            vals = [st for st in b.st if st["s"] == "=" and st["lhs"]["l"] == 0 and not st["lhs"]["p"]]
+            if vals:
+                rv = vals[-1]["rv"]
+                if rv["r"] == "use" and rv["a"].get("k") == "const" and bool(rv["a"]["c"].get("v")):
+                    return atoms, None
+                at = atom_of_operand(rv["a"]) if rv["r"] == "use" else ((rv["op"], side(rv["a"]), side(rv["b"])) if rv["r"] == "bin" else None)
+                if at is None or None in at:
+                    return None, "the result is not a comparison of two parameter fields"
+                atoms.append(at)
+                return atoms, None
+            bi = t["to"]
+            continue
+        if t["t"] == "return":
+            return atoms, None
+        return None, "unexpected terminator %s" % t["t"]
+    return None, "too long"
